@@ -471,6 +471,7 @@ Definition bind_memory (v : vam) (slot : Z) (image : bool) (res off : Z) : vam *
   let a := get_alloc v slot in
   if res =? 0 then (v, ER VK_UNKNOWN)
   else if negb (a_allocated a) then (v, ER VK_UNKNOWN)
+  else if off <? 0 then (v, ER VK_UNKNOWN)       (* a negative allocation-local offset is refused before any driver call *)
   else
     let target :=
       if a_kind a =? 2 then OK off
